@@ -76,6 +76,8 @@ Box *makeBox(int v);
 
 const std::string &strRef();
 std::string strVal(int n);
+std::string strVal2(int n);
+const std::string strVal3(int n);
 const std::string *strOwned(int n);
 const std::string *strLib();
 const std::string *strFinal(int n);
